@@ -195,9 +195,53 @@ fn ground(r: &mut Rng) -> ST {
         _ => gen_literal(r),
     }
 }
-pub const SHAPES: [&str; 17] = ["cycle", "clique", "components", "star", "bipartite", "blank-graph", "twice-in-quad", "three-blank-quad", "row28-witness", "literals", "random", "unsupported", "path-tree", "b9-b10", "b9-b10-witness", "twins", "multi-edge"];
+pub const SHAPES: [&str; 18] = ["cycle", "clique", "components", "star", "bipartite", "blank-graph", "twice-in-quad", "three-blank-quad", "row28-witness", "literals", "random", "unsupported", "path-tree", "b9-b10", "b9-b10-witness", "twins", "multi-edge", "multi-pred"];
 /// the shapes added after the first seeding rounds (near-identical quads; parallel edges)
 pub const NEW_SHAPES: [usize; 2] = [15, 16];
+/// added after round 6: sibling nodes, each related to one and the same other node through several quads that
+/// differ by their PREDICATE (and / or graph name, direction)
+pub const MULTI_PRED: usize = 17;
+/// one link quad between a sibling `n` and its child `x`: (kind, predicate, graph name);
+/// kind 0: n p x g . kind 1: x p n g . kind 2: n p "0" x (the child is the graph name) . kind 3: x p "0" n
+pub type Link = (usize, usize, usize);
+const LINK_PREDS: [&str; 3] = [P, PQ, "http://e/p0"];
+fn link_quad(l: Link, n: &ST, x: &ST) -> Q {
+    let graphs = [None, Some(iri(G1)), Some(iri(G2))];
+    let zero = lit_dt("0", &format!("{XSD}integer"));
+    match l.0 {
+        0 => ([n.clone(), iri(LINK_PREDS[l.1]), x.clone()], graphs[l.2].clone()),
+        1 => ([x.clone(), iri(LINK_PREDS[l.1]), n.clone()], graphs[l.2].clone()),
+        2 => ([n.clone(), iri(LINK_PREDS[l.1]), zero], Some(x.clone())),
+        _ => ([x.clone(), iri(LINK_PREDS[l.1]), zero], Some(n.clone())),
+    }
+}
+/// a pattern of 2..=max distinct links between a node and ONE other node.  Classes: two (or three) predicates in
+/// the same position and graph; the same with different graphs; one predicate in both directions; different
+/// predicates in both directions; the other node as graph name under different predicates; any mixture
+pub fn link_pattern(r: &mut Rng, max: usize) -> Vec<Link> {
+    let (pa, g) = (r.below(3), r.below(3));
+    let pb = (pa + 1 + r.below(2)) % 3;
+    let pc = 3 - pa - pb;
+    let dir = r.below(2);
+    let mut v: Vec<Link> = match r.below(12) {
+        0..=3 => vec![(dir, pa, g), (dir, pb, g)],
+        4 => vec![(dir, pa, g), (dir, pb, g), (dir, pc, g)],
+        5 => vec![(dir, pa, g), (dir, pb, (g + 1) % 3)],
+        6 => vec![(dir, pa, g), (dir, pb, g), (dir, pa, (g + 1) % 3)],
+        7 => vec![(0, pa, g), (1, pa, g)],
+        8 => vec![(0, pa, g), (1, pb, g), (dir, pb, g)],
+        9 => vec![(2 + dir, pa, 0), (2 + dir, pb, 0)],
+        10 => vec![(dir, pa, g), (dir, pb, g), (2 + r.below(2), r.below(3), 0)],
+        _ => (0..r.range(2, 3)).map(|_| (r.below(4), r.below(3), r.below(3))).collect(),
+    };
+    while v.len() < max && r.chance(1, 4) { v.push((r.below(4), r.below(3), r.below(3))); }
+    // kinds 2 and 3 have no graph choice
+    for l in v.iter_mut() { if l.0 >= 2 { l.2 = 0; } }
+    let mut out: Vec<Link> = vec![];
+    for l in v { if !out.contains(&l) { out.push(l); } }
+    if out.len() < 2 { out.push(((out[0].0 + 0) % 4, (out[0].1 + 1) % 3, out[0].2)); }
+    out
+}
 const G1: &str = "http://e/g";
 const G2: &str = "http://e/g2";
 /// terms that are easily confused with each other at one position of a quad: equal lexical forms under different
@@ -437,6 +481,47 @@ pub fn gen_dataset(r: &mut Rng, shape: usize, big: bool) -> Vec<Q> {
                 let at = r.below(v.len() + 1);
                 for (j, q) in links.into_iter().enumerate() { v.insert(at + j, q); }
             }
+        }
+        "multi-pred" => {
+            // m sibling nodes n0..n(m-1) with one and the same first-degree hash; each is related to its own child
+            // x_i (and sometimes to a second child y_i) through the SAME pattern of 2..4 quads that differ by their
+            // predicate, graph name or direction, so that Hash Related Blank Node is asked about one related node
+            // several times, at one position, with different quads.  The children are told apart directly (a
+            // literal each: they get their canonical identifier before the siblings are ordered), one step further,
+            // in pairs, or not at all; the siblings are thus ordered by Hash N-Degree Quads against non-automorphic
+            // (and automorphic) members of their group.  The link quads of every sibling are shuffled among
+            // themselves, and half of the time the whole dataset is shuffled.
+            let m = *r.pick(&[2usize, 3, 3, 4, 4, if big { 5 } else { 3 }]);
+            let two = m <= 3 && r.chance(1, 4);
+            let pat_x = link_pattern(r, if big { 5 } else { 4 });
+            let pat_y = link_pattern(r, 3);
+            let tails = *r.pick(&[0usize, 0, 0, 1, 1, 2]); // 0: literal on the child, 1: one step further, 2: no mark
+            let mark_of: fn(usize) -> usize = match r.below(4) { 0 => |i: usize| i / 2, 1 => |i: usize| i.min(1), _ => |i: usize| i };
+            let hub = r.chance(1, 4);
+            let pm = r.ps(&["http://e/r", PQ, P]);
+            let mut groups: Vec<Vec<Q>> = vec![];
+            let mut rest: Vec<Q> = vec![];
+            for i in 0..m {
+                let nd = |kind: &str| bnode(&format!("{kind}{i}"));
+                let n = nd("n");
+                let mut links: Vec<Q> = pat_x.iter().map(|&l| link_quad(l, &n, &nd("x"))).collect();
+                if two { links.extend(pat_y.iter().map(|&l| link_quad(l, &n, &nd("y")))); }
+                if hub { links.push(e(bnode("h"), "http://e/s", n.clone())); }
+                shuffle(&mut links, r);
+                groups.push(links);
+                let children: Vec<(&str, &str, &str)> = if two { vec![("x", "u", ""), ("y", "v", "y")] } else { vec![("x", "u", "")] };
+                for (c, t, pre) in children {
+                    let mark = lit_dt(&format!("{pre}{}", mark_of(i)), &format!("{XSD}string"));
+                    match tails {
+                        0 => rest.push(e(nd(c), pm, mark)),
+                        1 => { rest.push(e(nd(c), "http://e/t", nd(t))); rest.push(e(nd(t), pm, mark)); }
+                        _ => {}
+                    }
+                }
+            }
+            shuffle(&mut groups, r);
+            if r.chance(1, 2) { v.extend(rest); v.extend(groups.into_iter().flatten()); } else { v.extend(groups.into_iter().flatten()); v.extend(rest); }
+            if r.chance(1, 2) { shuffle(&mut v, r); }
         }
         "b9-b10" | "b9-b10-witness" => {
             // ten or more temporary identifiers, and a related-node list in which one node occurs twice:
@@ -1144,6 +1229,48 @@ pub fn focus_orders(d: &[Q], focus: &[usize], r: &mut Rng) -> Vec<Vec<Q>> {
     }
 }
 
+/// the same quads in other insertion orders: each group of positions (the quads of one sibling node) permuted
+/// within itself, independently of the other groups: every combination when there are at most 64 of them, else the
+/// mirror image of every group and 40 random combinations; plus four orders in which the quads of all the groups
+/// are shuffled together (groups interleaved)
+pub fn group_orders(d: &[Q], groups: &[Vec<usize>], r: &mut Rng) -> Vec<Vec<Q>> {
+    let place = |perms: &[Vec<usize>]| -> Vec<Q> {
+        let mut v = d.to_vec();
+        for (g, perm) in groups.iter().zip(perms) { for (k, &src) in perm.iter().enumerate() { v[g[k]] = d[g[src]].clone(); } }
+        v
+    };
+    let fact = |n: usize| (1..=n).product::<usize>();
+    let total = groups.iter().fold(1usize, |a, g| a.saturating_mul(fact(g.len().min(8))));
+    let mut out: Vec<Vec<Q>> = vec![];
+    if total <= 64 {
+        let all: Vec<Vec<Vec<usize>>> = groups.iter().map(|g| lex_perms(g.len())).collect();
+        let mut idx = vec![0usize; groups.len()];
+        'outer: loop {
+            out.push(place(&idx.iter().enumerate().map(|(g, &i)| all[g][i].clone()).collect::<Vec<_>>()));
+            for g in 0..groups.len() {
+                idx[g] += 1;
+                if idx[g] < all[g].len() { continue 'outer; }
+                idx[g] = 0;
+            }
+            break;
+        }
+    } else {
+        out.push(place(&groups.iter().map(|g| (0..g.len()).rev().collect()).collect::<Vec<_>>()));
+        for _ in 0..40 {
+            out.push(place(&groups.iter().map(|g| { let mut p: Vec<usize> = (0..g.len()).collect(); shuffle(&mut p, r); p }).collect::<Vec<_>>()));
+        }
+    }
+    let all_pos: Vec<usize> = { let mut a: Vec<usize> = groups.iter().flatten().copied().collect(); a.sort(); a.dedup(); a };
+    for _ in 0..4 {
+        let mut p = all_pos.clone();
+        shuffle(&mut p, r);
+        let mut v = d.to_vec();
+        for (k, &src) in p.iter().enumerate() { v[all_pos[k]] = d[src].clone(); }
+        out.push(v);
+    }
+    out
+}
+
 // ---------------------------------------------------------------- the two drivers
 fn parse_back(bytes: &str) -> Result<Vec<Q>, String> {
     let mut out: Vec<Q> = vec![];
@@ -1157,6 +1284,11 @@ fn has_repeat(d: &[Q]) -> bool {
 }
 fn has_three(d: &[Q]) -> bool {
     d.iter().any(|q| q_blanks(q).into_iter().collect::<BTreeSet<_>>().len() >= 3)
+}
+/// two blank nodes related through two quads with DIFFERENT predicates, the nodes being at the same positions
+fn has_multi_pred(d: &[Q]) -> bool {
+    let key = |q: &Q| -> Vec<(usize, String)> { q.0.iter().chain(q.1.iter()).enumerate().filter_map(|(i, t)| blabel(t).map(|l| (i, l))).collect() };
+    d.iter().enumerate().any(|(i, q)| { let k = key(q); k.len() >= 2 && d[i + 1..].iter().any(|q2| show_t(&q2.0[1]) != show_t(&q.0[1]) && key(q2) == k) })
 }
 /// all graphs over blank nodes e0..e2 and two predicates with 1..=4 edges (self loops included)
 fn exhaustive_case(k: usize) -> Option<Vec<Q>> {
@@ -1271,9 +1403,9 @@ pub fn run(mode: &str) {
     let once = coq_bool(!prefix_model);
     let mut sum = Summary::default();
     sum.rule = if c06 {
-        "case = (dataset: every graph over 3 blank nodes and 2 predicates with 1..4 edges in the thorough tier, then the C05 shapes (including near-identical quads and parallel edges) with emphasis on literals with escape-relevant characters, quads mentioning one node twice and quads with three blank nodes, and (rarely, being expensive) datasets with more than ten blank nodes in which one node is related twice to another, so that temporary identifiers _:b9 / _:b10 give permutation paths of different lengths; store type among the nine of C05; SHA-256 or SHA-384; for one case in eight also an OrderedVec yielding one quad twice (implementation against its model and the Rust transcription only); run once with the default limits and once with (depth_factor, permutation_limit) from the grid {0,.25,.5,1,1.5,2,3} x {0,1,2,3,4,6,12}); three-way comparison implementation / model of the implementation / model of the specification; non-trivial = hash-n-degree ran (two blank nodes share a first-degree hash), or a literal needs escaping, or the input is unsupported, or a limit fired; distinct = distinct (dataset, limits, hash)".into()
+        "case = (dataset: every graph over 3 blank nodes and 2 predicates with 1..4 edges in the thorough tier, then the C05 shapes (including near-identical quads, parallel edges and sibling nodes related to one other node through several predicates / graphs / directions) with emphasis on literals with escape-relevant characters, quads mentioning one node twice and quads with three blank nodes, and (rarely, being expensive) datasets with more than ten blank nodes in which one node is related twice to another, so that temporary identifiers _:b9 / _:b10 give permutation paths of different lengths; store type among the nine of C05; SHA-256 or SHA-384; for one case in eight also an OrderedVec yielding one quad twice (implementation against its model and the Rust transcription only); run once with the default limits and once with (depth_factor, permutation_limit) from the grid {0,.25,.5,1,1.5,2,3} x {0,1,2,3,4,6,12}); three-way comparison implementation / model of the implementation / model of the specification; non-trivial = hash-n-degree ran (two blank nodes share a first-degree hash), or a literal needs escaping, or the input is unsupported, or a limit fired; distinct = distinct (dataset, limits, hash)".into()
     } else {
-        "case = (dataset of one shape among cycle / clique / disjoint isomorphic components / star / bipartite / blank graph names / node twice in a quad / three blank nodes in a quad / section-4-row-28 witness / literals / random / unsupported / tree, at most 6 blank nodes, and, every third case, near-identical quads (same lexical form under other datatypes / language tags, IRIs and lexical forms that are prefixes of each other, graph name present / absent / blank, at one or two positions of otherwise equal quads) or parallel edges (a root related to each child through 1..3 quads differing only by graph name or object, children told apart 0..2 steps further, repeated so that the root goes through hash-n-degree: the permuted related-node list is a multiset in the order the dataset yields the quads); a copy under a random label bijection and quad order; two store types among HashSet, BTreeSet, FastDataset, LightDataset, OrderedVec (yields in insertion order), BTreeSet / HashSet of Gspo, Fast/LightDataset after inserting and removing other quads; SHA-256 or SHA-384; plus the same quads in up to 24 other insertion orders (a focus group of quads permuted in every way) through normalize / normalize_sha384, the entry points with default limits against normalize_with / relabel_with, a writer taking 1..3 bytes per call, a writer failing after a byte budget, every accessor of the returned terms, and for some cases other limits from the C06 grid, a dataset whose iterator fails, a dataset yielding one quad twice); non-trivial = hash-n-degree ran (two blank nodes share a first-degree hash); distinct = distinct (dataset, copy, hash)".into()
+        "case = (dataset of one shape among cycle / clique / disjoint isomorphic components / star / bipartite / blank graph names / node twice in a quad / three blank nodes in a quad / section-4-row-28 witness / literals / random / unsupported / tree, at most 6 blank nodes, and, every third case, near-identical quads (same lexical form under other datatypes / language tags, IRIs and lexical forms that are prefixes of each other, graph name present / absent / blank, at one or two positions of otherwise equal quads) or parallel edges (a root related to each child through 1..3 quads differing only by graph name or object, children told apart 0..2 steps further, repeated so that the root goes through hash-n-degree: the permuted related-node list is a multiset in the order the dataset yields the quads), and, every sixth case, 2..4 sibling nodes of equal first-degree hash each related to its own child (sometimes two children) through the same pattern of 2..4 quads differing by predicate, graph name or direction (child as object / subject / graph name), the children told apart by a literal each / one step further / in pairs / not at all, so that the siblings are ordered by hash-n-degree against non-automorphic and automorphic members of their group; a copy under a random label bijection and quad order; two store types among HashSet, BTreeSet, FastDataset, LightDataset, OrderedVec (yields in insertion order), BTreeSet / HashSet of Gspo, Fast/LightDataset after inserting and removing other quads; SHA-256 or SHA-384; plus the same quads in up to 24 other insertion orders (a focus group of quads permuted in every way; for sibling nodes the quads of every sibling permuted independently, all combinations up to 64, and interleaved) through normalize / normalize_sha384, the entry points with default limits against normalize_with / relabel_with, a writer taking 1..3 bytes per call, a writer failing after a byte budget, every accessor of the returned terms, and for some cases other limits from the C06 grid, a dataset whose iterator fails, a dataset yielding one quad twice); non-trivial = hash-n-degree ran (two blank nodes share a first-degree hash); distinct = distinct (dataset, copy, hash)".into()
     };
     let base = Rng::new(a.seed);
     // tier-dependent generation is selected by an explicit flag so that `--only` replays reproduce it
@@ -1286,14 +1418,16 @@ pub fn run(mode: &str) {
         let mut r = base.fork(idx as u64);
         let exhaustive = c06 && thorough && idx < EXHAUSTIVE;
         let forced = a.rest.iter().position(|x| x == "--shape").and_then(|i| a.rest.get(i + 1)).and_then(|n| SHAPES.iter().position(|s| s == n));
-        let mut shape = if let Some(f) = forced { f } else if c06 { *r.pick(&[9usize, 9, 9, 6, 6, 7, 10, 10, 11, 0, 1, 2, 3, 4, 5, 8, 12, 15, 15, 16]) } else { r.below(13) };
+        let mut shape = if let Some(f) = forced { f } else if c06 { *r.pick(&[9usize, 9, 9, 6, 6, 7, 10, 10, 11, 0, 1, 2, 3, 4, 5, 8, 12, 15, 15, 16, 17, 17]) } else { r.below(13) };
         if forced.is_none() && c06 {
             // more than ten temporary identifiers: expensive for the Coq side, hence rare
             if r.chance(1, 100) { shape = 14; } else if thorough && r.chance(1, 150) { shape = 13; }
         }
         // C05: every third case is one of the shapes added later (near-identical quads, parallel edges)
         if forced.is_none() && !c06 && idx % 3 == 2 { shape = NEW_SHAPES[(idx / 3) % NEW_SHAPES.len()]; }
-        let new_shape = NEW_SHAPES.contains(&shape);
+        // C05: and every sixth case has sibling nodes related to one other node through several predicates
+        if forced.is_none() && !c06 && idx % 6 == 1 { shape = MULTI_PRED; }
+        let new_shape = NEW_SHAPES.contains(&shape) || shape == MULTI_PRED;
         let big = thorough && r.chance(1, 40);
         let d: Vec<Q> = if exhaustive { exhaustive_case(idx).unwrap() } else { gen_dataset(&mut r, shape, big) };
         let shape_name = if exhaustive { "exhaustive" } else { SHAPES[shape] };
@@ -1389,11 +1523,16 @@ pub fn run(mode: &str) {
                 "twins" => (0..d.len().min(4)).collect(),
                 _ => { let mut all: Vec<usize> = (0..d.len()).collect(); shuffle(&mut all, &mut r); all.truncate(4); all }
             };
+            // sibling nodes: the quads of every sibling permuted among themselves, independently
+            let sibling_groups: Vec<Vec<usize>> = if shape_name == "multi-pred" {
+                let sib: BTreeSet<String> = d_blanks(&d).into_iter().filter(|l| l.starts_with('n')).collect();
+                sib.iter().map(|n| (0..d.len()).filter(|&i| q_blanks(&d[i]).iter().any(|l| l == n)).collect()).collect()
+            } else { vec![] };
             let mut third: Option<Vec<Q>> = None;
             // (datasets with more than 1000 permutations per run keep to the checks above)
             let light = work <= 1000;
             if out1.code == 0 && focus.len() >= 2 && light {
-                let mut orders = focus_orders(&d, &focus, &mut r);
+                let mut orders = if sibling_groups.is_empty() { focus_orders(&d, &focus, &mut r) } else { group_orders(&d, &sibling_groups, &mut r) };
                 // expensive datasets get fewer orders (about 8000 digests per case; all the orders for the new shapes)
                 if !new_shape || work > 100 { shuffle(&mut orders, &mut r); orders.truncate(((2400 / work) as usize).clamp(2, 40)); }
                 sum.bump_by("insertion-orders-tried", orders.len() as u64);
@@ -1476,6 +1615,7 @@ pub fn run(mode: &str) {
         if d.iter().any(|q| matches!(q.0[1], SimpleTerm::LiteralDatatype(..) | SimpleTerm::LiteralLanguage(..))) { sum.bump("generalized:literal-predicate"); }
         if has_repeat(&d) { sum.bump("class:node-twice-in-a-quad"); }
         if has_three(&d) { sum.bump("class:three-blank-nodes-in-a-quad"); }
+        if has_multi_pred(&d) { sum.bump(if nontrivial_nd { "class:two-nodes-related-by-several-predicates,hash-n-degree-ran" } else { "class:two-nodes-related-by-several-predicates" }); }
         if nontrivial_nd { sum.bump("hash-n-degree-ran"); }
         if escapes { sum.bump("literal-needs-escaping"); }
         sum.bump(if sha384 { "hash:sha384" } else { "hash:sha256" });
